@@ -6,14 +6,17 @@ import ca_common
 
 ASSUMPTIONS = [
     "resources are sets of atoms (AS + IPv4 /16 + IPv6 /48 triples); rpki-rs block arithmetic is assumed to satisfy the set laws",
-    "a request limit is empty or one atom set for all three families; the system harness only produces empty limits",
+    "a request limit is empty or one atom set for all three families; the system harness only produces empty limits (an op for "
+    "limits is not planned: it needs a crafted CSR exchange), so applyLimit is exercised by the theorems only",
     "wants_update: the f64 ratio tests are restated in integer arithmetic (equivalent for |seconds| < 2^45)",
     "sync_converges_partial is about the class's key-state machine (Ca/KeySync.lean) against a parent that answers every request "
     "with a certificate for the offered resources, fixed clock; its tie to the two-aggregate exchange is the lock-step run",
-    "shrink_active_child_partial assumes a class without stale suspended entries (what F-C02-1 breaks) and a duplicate-free issued map; "
-    "shrink_active_child_quiet_partial proves both for every history in which no certificate is issued for a key that still has a "
-    "suspended entry (no unsuspension of a suspended child); the link from an active child's key in use to the issued map "
-    "additionally needs that no two children share a key (not proved; the oracle ActiveChildHasCert checks it on the implementation)",
+    "shrink_active_child is about the class: every issued certificate is kept, narrowed or removed exactly as the intersection "
+    "demands, in every reachable state; the link from 'key in use by an active child' to 'issued in the class' additionally needs "
+    "that no two children present the same key (model corner shown as an example; the oracle ActiveChildHasCert checks the "
+    "state-level predicate on the implementation)",
+    "pinned_* theorems are counter-models of the tree before fix bb96d233 (the old add_issued_certificate kept as a separate "
+    "definition); they say nothing about the current tree",
     "HashMap iteration order is arbitrary: the model visits entries in insertion order, the driver compares sorted",
 ]
 
@@ -32,19 +35,21 @@ MANIFEST = {
             "wants_update, the entitlement events and the whole CertAuth command processing around them: issued certificates are exactly "
             "limit(issuer ∩ entitlement) (issued_exact); in every state reachable by any command history no issued child certificate "
             "exceeds the current key's certificate, and the command that receives a smaller certificate or activates a new key restores "
-            "that itself (never_overclaims, shrink_in_same_command, activation_keeps_containment); the exact effect of the shrink on a "
-            "class without stale entries (shrink_active_child_partial), which every class is in histories without an unsuspension of a "
-            "suspended child (quiet_classes_tidy, shrink_active_child_quiet_partial, unbounded); the stale suspended entry left by unsuspension makes a later "
-            "shrink withdraw an active child's certificate and can leave an orphan certificate published that over-claims after the next "
-            "shrink (not_shrink_active_child, not_never_overclaims_published: concrete witnesses, replayed, F-C02-1); a converged child's "
+            "that itself (never_overclaims, shrink_in_same_command, activation_keeps_containment); in every reachable state no key is "
+            "both issued and suspended (classes_tidy) and the shrink keeps, narrows or removes each issued certificate exactly as the "
+            "intersection demands, whatever the suspension history (shrink_active_child, unbounded; since fix bb96d233 - the pinned "
+            "tree's stale entry, the withdrawn certificate of an active child and the orphan left published are kept as "
+            "pinned_add_issued_leaves_stale_entry, pinned_shrink_withdraws_active_child, pinned_shrink_orphans_certificate); a converged child's "
             "sync emits no event and changes nothing (sync_idempotent, for every state); every well-formed key state converges within two "
             "rounds and two syncs to one key with exactly the offered resources and no open request (sync_converges_partial). Tied to "
             "the code by lock-step execution against an in-process krill and by the theorem predicates evaluated on the "
             "implementation's own state",
-    "note": "Kernel-checked theorems are about the model. shrink_active_child and the published level of never_overclaims are false on "
-            "this tree (F-C02-1, recorded with two replays); sync_converges is proved on the class key-state machine, not on the "
-            "two-aggregate exchange; F-C03-1 makes syncs non-idempotent under a class-name mapping (recorded). rpki-rs resource arithmetic, "
-            "real certificates and the wall clock are outside the model.",
+    "note": "Kernel-checked theorems are about the model. The published level of never_overclaims is evaluated by the oracle "
+            "(NoOverclaimPublished) and rests on C01's objects_mirror; sync_converges is proved on the class key-state machine, not on "
+            "the two-aggregate exchange. F-C02-1 and F-C03-1 are fixed (bb96d233, 43d7eca0): their scenarios stay in the corpus and "
+            "fail the check if the behaviour returns. Open: F-C04-3 (a mapping to a class the parent does not have can shadow the class "
+            "a child is certified under; its syncs then never become idempotent). rpki-rs resource arithmetic, real certificates and "
+            "the wall clock are outside the model.",
     "technique": "Lean 4 proof (invariants by induction over command histories, finite abstraction + decide, concrete counter-examples) "
                  "+ correspondence check",
 }
